@@ -193,7 +193,8 @@ def run(ctx):
             "module": "checks.c01", "params": params,
             "bound": bound + (1 if double and ctx.quick else 0),
             "opts": {"spin_time": 0.05 if spinners else 0.0, "time_horizon": 30.0,
-                     "drain": 5.0, "max_points": 6000, "free_switch_cost": 1},
+                     "drain": 5.0, "max_points": 6000, "free_switch_cost": 1,
+                     "time_jump_cost": None if ctx.quick else 1},
             "budget": 4000 if ctx.quick else 60000,
         })
     if not ctx.quick:
